@@ -14,11 +14,16 @@ for l in open('/verif/properties.jsonl'):
         print(json.dumps(d,indent=1))
 PY
 EMPH="${2:-}"
-python3 - "$ID" "$EMPH" > "$WT/TASK.md" <<'PY'
+AVOID="${3:-}"
+python3 - "$ID" "$EMPH" "$AVOID" > "$WT/TASK.md" <<'PY'
 import sys
 t=open('/verif/tools/seed_prompt.txt').read().replace('__ID__',sys.argv[1])
 e=sys.argv[2]
-t=t.replace('__EMPHASIS__\n\n', ('For this round, prefer a change whose trigger is of this kind: %s. (If that is impossible for this property, any kind of trigger that satisfies (3) is fine.)\n\n' % e) if e else '')
+a=sys.argv[3]
+txt=('For this round, prefer a change whose trigger is of this kind: %s. (If that is impossible for this property, any kind of trigger that satisfies (3) is fine.)\n\n' % e) if e else ''
+if a:
+    txt += 'These mechanisms have been studied already - choose a different code site or a different mechanism: %s.\n\n' % a
+t=t.replace('__EMPHASIS__\n\n', txt)
 sys.stdout.write(t)
 PY
 echo "$WT"
